@@ -55,14 +55,30 @@ def svk(a, b=1, **extra):
     return _got("svk", dict(a=a, b=b, **extra))
 
 
-FUNCS = {"s0": s0, "s1": s1, "s2": s2, "s3": s3, "s3d": s3d, "sk": sk, "s4": s4, "svk": svk}
+def _passthrough(f):
+    """an ordinary pass-through decorator (functools.wraps) below memento_function"""
+    import functools
+
+    @functools.wraps(f)
+    def wrapper(*args, **kwargs):
+        return f(*args, **kwargs)
+    return wrapper
+
+
+@memento_function(cluster=CL, version="1")
+@_passthrough
+def sdec(a, b=7):
+    return _got("sdec", dict(a=a, b=b))
+
+
+FUNCS = {"s0": s0, "s1": s1, "s2": s2, "s3": s3, "s3d": s3d, "sk": sk, "s4": s4, "svk": svk, "sdec": sdec}
 PARAMS = {"s0": [], "s1": ["a"], "s2": ["a", "b"], "s3": ["a", "b", "c"], "s3d": ["a", "b", "c"],
-          "sk": ["a", "k", "j"], "s4": ["x", "y", "z", "w"], "svk": ["a", "b"]}
+          "sk": ["a", "k", "j"], "s4": ["x", "y", "z", "w"], "svk": ["a", "b"], "sdec": ["a", "b"]}
 KWONLY = {"sk": {"k", "j"}}
 VARKW = {"svk": ["z", "y", "opt"]}      # names that a var-keyword parameter of the function may collect
 REQUIRED = {"s0": [], "s1": ["a"], "s2": ["a", "b"], "s3": ["a", "b", "c"], "s3d": ["a"], "sk": ["a", "k"],
-            "s4": ["x", "y", "z", "w"], "svk": ["a"]}
-DEFAULTS = {"s3d": {"b": 5, "c": None}, "sk": {"j": 2}, "svk": {"b": 1}}
+            "s4": ["x", "y", "z", "w"], "svk": ["a"], "sdec": ["a"]}
+DEFAULTS = {"s3d": {"b": 5, "c": None}, "sk": {"j": 2}, "svk": {"b": 1}, "sdec": {"b": 7}}
 
 
 @memento_function(cluster=CL, version="1")
